@@ -5,7 +5,9 @@
                accepts_own_class, rejects_other_class]
      unbound:  uses [use, obs]   every use of a signal through the class must raise UnboundSignal
      weak:     rows [variant, dead]  the owner must be collectable; the case "cycle" reuses the shape: dead = the attribute gave the
-               same bound signal before, during and after a complete subscribe / unsubscribe history                                                        *)
+               same bound signal before, during and after a complete subscribe / unsubscribe history; "reuse": a new instance
+               allocated at the address of a dead one gets its own bound signal; "private": name-mangled signals `__x` declared by
+               a base class and by its subclass are two independent channels with their own event classes                                                        *)
 EXTENDS Naturals, Sequences, TLC, TLCExt, Json, IOUtils
 Cases == JsonDeserialize(IOEnv.TRACE_FILE)
 VARIABLES i
@@ -29,7 +31,10 @@ Why(c) ==
        IF \E j \in DOMAIN c.uses : c.uses[j].obs # "UnboundSignal" THEN
             LET j == CHOOSE j \in DOMAIN c.uses : c.uses[j].obs # "UnboundSignal" IN "class-level-use-" \o c.uses[j].use \o "-gave-" \o c.uses[j].obs
        ELSE ""
-  ELSE IF \E j \in DOMAIN c.rows : ~c.rows[j].dead THEN (IF c.id = "cycle" THEN "bound-signal-changes-across-a-subscription-cycle" ELSE "binding-keeps-the-owner-alive") ELSE ""
+  ELSE IF \E j \in DOMAIN c.rows : ~c.rows[j].dead THEN (IF c.id = "cycle" THEN "bound-signal-changes-across-a-subscription-cycle"
+                                                             ELSE IF c.id = "reuse" THEN "bound-signal-of-a-dead-instance-handed-to-a-new-instance"
+                                                             ELSE IF c.id = "private" THEN "private-signals-of-base-and-subclass-share-a-bound-signal"
+                                                             ELSE "binding-keeps-the-owner-alive") ELSE ""
 Report == LET c == Cases[i] w == Why(c) IN
           PrintT(ToJson([end |-> c.id, ok |-> (w = ""), step |-> 1, why |-> w, hits |-> <<>>]))
 =============================================================================
